@@ -131,6 +131,26 @@ PROPS = {
         assumptions=["RangeFrom is checked under start < MAX (konst and std both overflow there)",
                      "iterator fields are private: successor states are compared by behaviour (next and next_back on copies), which determines a range state up to emptiness"],
     ),
+    "C13": _p(
+        "Parser positions always describe where its remainder sits in the original string",
+        kani=["c13"], verus=["c13"], level="proof",
+        level_text="Verus: every Parser operation (new/with_start_offset, trim*, trim_*matches, strip_prefix/suffix, find_skip/rfind_skip, skip/skip_back, split/rsplit/split_terminator/rsplit_terminator/split_keep, "
+                   "parse_<int> x12, parse_bool) satisfies the one-step relational invariant `narrowed`: the new remainder is the old remainder cut to [a,b), start_offset moved by exactly a, a and b char boundaries; "
+                   "errors carry the start (from-start ops) or end (from-end ops) offset and the matching direction. Induction over operation sequences gives the statement for every history. "
+                   "Kani: the same invariant by pointer arithmetic from an arbitrary base offset, strings <= 5-6 bytes",
+        technique="Verus one-step relational contracts (ghost-free induction over histories) on the extracted Parser methods + Kani bounded pointer-offset harnesses",
+        assumptions=["Parser offsets are u32: start_offset + remainder length <= u32::MAX is a precondition of every method (parser_inv)",
+                     "patterns are abstract (L5): pattern_bytes(p) is the valid UTF-8 encoding of the pattern"],
+    ),
+    "C14": _p(
+        "Parser operations transform the remainder exactly like the string functions",
+        kani=["c14"], verus=["c13"], level="proof",
+        level_text="Verus: each Parser operation's postcondition states the remainder in the vocabulary of the string functions it mirrors (is_prefix/is_suffix, ws_start/ws_end/trim_ws, reps_start/reps_end/trim_reps, "
+                   "first/last occurrence, digit-run parse) and succeeds exactly when that function finds something; the split protocol is a state machine over yielded_last_split "
+                   "(piece before the first delimiter and flag cleared / whole remainder and flag set / SplitExhausted), from which the sequence of pieces follows by induction. Kani: one-step equivalence with the free functions and whole split sequences, bounded",
+        technique="Verus one-step contracts tying Parser methods to the string-function specs + Kani bounded equivalence and split-protocol harnesses",
+        assumptions=["the induction from the one-step split contract to `the sequence of pieces is str::split's` is written in DESIGN.md, not machine-checked; Kani checks whole sequences for bounded strings"],
+    ),
 }
 
 NOT_APPLICABLE = {
@@ -143,7 +163,5 @@ NOT_APPLICABLE = {
 PENDING = {
     "C01": "check under construction (unsafe-site inventory + V preconditions)",
     "C06": "check under construction",
-    "C13": "check under construction",
-    "C14": "check under construction",
     "C19": "check under construction",
 }
